@@ -9,7 +9,18 @@ import (
 	"strings"
 )
 
-func writeExtraTables(outDir string) {}
+// commands and table writers register themselves from init() functions (one file per property)
+var commands = map[string]func(seed int64, tier, outDir string){}
+var tableWriters []func(outDir string)
+
+func register(name string, f func(seed int64, tier, outDir string)) { commands[name] = f }
+func registerTables(f func(outDir string))                          { tableWriters = append(tableWriters, f) }
+
+func writeExtraTables(outDir string) {
+	for _, f := range tableWriters {
+		f(outDir)
+	}
+}
 
 var optReplay string
 var optBoost = 1
@@ -53,13 +64,14 @@ func main() {
 	fs.IntVar(&optBoost, "boost", 1, "multiply the case budget (search after a broken obligation)")
 	fs.StringVar(&optExtraRunes, "extra-runes", "", "comma separated code points the model computed as witnesses")
 	fs.Parse(os.Args[2:])
-	switch cmd {
-	case "tables":
+	if cmd == "tables" {
 		cmdTables(*out)
-	case "c17":
-		cmdC17(*seed, *tier, *out)
-	default:
+		return
+	}
+	f, ok := commands[cmd]
+	if !ok {
 		fmt.Fprintf(os.Stderr, "unknown command %s\n", cmd)
 		os.Exit(2)
 	}
+	f(*seed, *tier, *out)
 }
